@@ -45,7 +45,7 @@ type Plan struct {
 	Peer    int    `json:"peer,omitempty"`
 	From    int    `json:"from,omitempty"`
 	Mac1    string `json:"mac1,omitempty"`    // ok, junk
-	Content string `json:"content,omitempty"` // init: good, replay, corruptstatic, corruptts, stranger, oldts, flood; resp: good, corrupt, wrongidx, replay
+	Content string `json:"content,omitempty"` // init: good, goodnextsec, replay, replayold, corruptstatic, corruptts, stranger, oldts, oldbignano, flood; resp: good, corrupt, wrongidx, sessidx, replay
 	Elems   []Elem `json:"elems,omitempty"`
 	D       int    `json:"d,omitempty"`
 	Size    int    `json:"size,omitempty"`
@@ -364,8 +364,17 @@ func (r *run) exec(pl Plan, recs *[]StepRec) bool {
 		if content == "replay" && len(r.consumed[pi]) == 0 {
 			content = "good"
 		}
-		if content == "oldts" && r.maxTs[pi] == 0 {
+		if (content == "oldts" || content == "oldbignano") && r.maxTs[pi] == 0 {
 			content = "good"
+		}
+		if content == "replayold" {
+			// an EARLIER consumed initiation than the last one
+			if len(r.consumed[pi]) < 2 {
+				content = "replay"
+				if len(r.consumed[pi]) == 0 {
+					content = "good"
+				}
+			}
 		}
 		if content == "flood" {
 			// only right after a consumption is the 20 ms gap certainly not over
@@ -388,6 +397,9 @@ func (r *run) exec(pl Plan, recs *[]StepRec) bool {
 		if content == "replay" {
 			ri := r.consumed[pi][len(r.consumed[pi])-1]
 			msg, ts = append([]byte{}, ri.msg...), ri.ts
+		} else if content == "replayold" {
+			ri := r.consumed[pi][mrand.Intn(len(r.consumed[pi])-1)]
+			msg, ts = append([]byte{}, ri.msg...), ri.ts
 		} else {
 			ts = uint64(time.Now().UnixNano())
 			if ts <= r.maxTs[pi] {
@@ -395,6 +407,18 @@ func (r *run) exec(pl Plan, recs *[]StepRec) bool {
 			}
 			if content == "oldts" {
 				ts = r.maxTs[pi] - uint64(mrand.Intn(2))*1e9
+			}
+			if content == "oldbignano" {
+				// an earlier second with a LARGER nanosecond part than the greatest consumed timestamp
+				sec := r.maxTs[pi]/1e9 - 1 - uint64(mrand.Intn(3))
+				ts = sec*1e9 + 999999999 - uint64(mrand.Intn(1000))
+			}
+			if content == "goodnextsec" {
+				// a later second with a SMALL nanosecond part (the sender's clock may run ahead): newer, must be accepted
+				ts = (r.maxTs[pi]/1e9+1+uint64(mrand.Intn(2)))*1e9 + uint64(mrand.Intn(1000))
+				if r.maxTs[pi] == 0 {
+					ts = (uint64(time.Now().Unix())+1)*1e9 + uint64(mrand.Intn(1000))
+				}
 			}
 			p.NextIdx++
 			st := ref.CreateInitiation(p.Priv, ref.NewPrivate(), r.w.DevPub, p.Psk, p.NextIdx, ref.Tai64nRaw(0x400000000000000a+ts/1e9, uint32(ts%1e9)))
@@ -460,6 +484,18 @@ func (r *run) exec(pl Plan, recs *[]StepRec) bool {
 				case "wrongidx":
 					binary.LittleEndian.PutUint32(msg[8:12], di.idx^0x00010000)
 					msg = ref.AppendMacs(msg[:60], r.w.DevPub, nil)
+				case "sessidx":
+					// the genuine response, but addressed to the index of an established SESSION of that peer
+					// instead of the index of the initiation it answers (MAC1 recomputed)
+					x := di.idx ^ 0x00020000
+					if ss := r.sess[pi]; len(ss) > 0 {
+						x = ss[len(ss)-1-mrand.Intn(len(ss))].s.RemoteIdx
+					}
+					if x == di.idx {
+						x ^= 0x00020000
+					}
+					binary.LittleEndian.PutUint32(msg[8:12], x)
+					msg = ref.AppendMacs(msg[:60], r.w.DevPub, nil)
 				default:
 					ns = &rsess{s: s, sid: sid, peer: pi}
 					r.lastResp[pi] = append([]byte{}, resp...)
@@ -480,9 +516,15 @@ func (r *run) exec(pl Plan, recs *[]StepRec) bool {
 			copy(msg[60:76], j[:])
 			mac1 = false
 		}
+		// the receiver field of a response must be the sender index of the initiation it answers: the index the
+		// device put into its latest initiation to that peer (whether that initiation is still outstanding is the
+		// model's business).  What the index table happens to resolve is not asked.
 		owner := "None"
-		if oi, ok := r.ownerOf(binary.LittleEndian.Uint32(msg[8:12]), true); ok {
-			owner = fmt.Sprintf("(Some %d)", keyNum(oi))
+		recvIdx := binary.LittleEndian.Uint32(msg[8:12])
+		for i := range r.peers {
+			if d := r.devInit[i]; d != nil && d.idx == recvIdx {
+				owner = fmt.Sprintf("(Some %d)", keyNum(i))
+			}
 		}
 		t := r.now()
 		out := r.w.Inject(from, msg)
@@ -811,7 +853,7 @@ func genRoamHandshake(r *mrand.Rand) []Plan {
 	for i := 0; i < n; i++ {
 		from := r.Intn(len(addrTable))
 		mac1 := []string{"ok", "ok", "ok", "junk"}[r.Intn(4)]
-		content := []string{"good", "good", "replay", "replay", "corruptstatic", "corruptts", "oldts", "flood"}[r.Intn(8)]
+		content := []string{"good", "good", "goodnextsec", "replay", "replayold", "corruptstatic", "corruptts", "oldts", "oldbignano", "oldbignano", "flood"}[r.Intn(11)]
 		who := pi
 		if r.Intn(8) == 0 {
 			who = 9
@@ -939,7 +981,7 @@ func genRestart(r *mrand.Rand) []Plan {
 		case 0, 1:
 			p = append(p, Plan{Op: "init", Peer: pi, From: from, Mac1: "ok", Content: "replay"})
 		case 2:
-			p = append(p, Plan{Op: "init", Peer: pi, From: from, Mac1: "ok", Content: "oldts"})
+			p = append(p, Plan{Op: "init", Peer: pi, From: from, Mac1: "ok", Content: []string{"oldts", "oldbignano", "replayold"}[r.Intn(3)]})
 		case 3:
 			p = append(p, batchOf(Elem{Peer: pi, From: from, Kind: []string{"replay", "good", "oldsess", "jump"}[r.Intn(4)]}))
 		case 4:
@@ -980,6 +1022,10 @@ func genCrossed(r *mrand.Rand) []Plan {
 	if r.Intn(4) == 0 {
 		// other crossing: the peer's initiation is consumed while the device's own is outstanding
 		p = append(p, Plan{Op: "init", Peer: pi, From: r.Intn(len(addrTable)), Mac1: "ok", Content: "good"})
+	}
+	if r.Intn(2) == 0 {
+		// the genuine response addressed to a session index instead of the initiation's, from elsewhere
+		p = append(p, Plan{Op: "resp", Peer: pi, From: r.Intn(len(addrTable)), Mac1: "ok", Content: "sessidx"}, Plan{Op: "tun", Peer: pi})
 	}
 	p = append(p, Plan{Op: "resp", Peer: pi, From: []int{pi, 5, 3}[r.Intn(3)], Mac1: "ok", Content: "good"})
 	n := 3 + r.Intn(4)
@@ -1038,12 +1084,12 @@ func genMix(r *mrand.Rand) []Plan {
 			p = append(p, Plan{Op: "setnonce", Peer: pi}, Plan{Op: "shifths", Peer: pi, D: 6}, Plan{Op: "tun", Peer: pi})
 		case 0, 1:
 			p = append(p, Plan{Op: "init", Peer: []int{pi, pi, pi, 9}[r.Intn(4)], From: from, Mac1: []string{"ok", "ok", "junk"}[r.Intn(3)],
-				Content: []string{"good", "good", "replay", "corruptstatic", "corruptts", "oldts", "flood"}[r.Intn(7)]})
+				Content: []string{"good", "good", "goodnextsec", "replay", "replayold", "corruptstatic", "corruptts", "oldts", "oldbignano", "flood"}[r.Intn(10)]})
 		case 2:
 			p = append(p, Plan{Op: "shifths", Peer: pi, D: 6}, Plan{Op: "tun", Peer: pi})
 		case 3:
 			p = append(p, Plan{Op: "resp", Peer: pi, From: from, Mac1: []string{"ok", "ok", "junk"}[r.Intn(3)],
-				Content: []string{"good", "good", "corrupt", "wrongidx", "replay"}[r.Intn(5)]})
+				Content: []string{"good", "good", "corrupt", "wrongidx", "sessidx", "replay"}[r.Intn(6)]})
 		case 4, 5, 6:
 			var els []Elem
 			k := 1 + r.Intn(4)
